@@ -39,6 +39,7 @@ class Job:
         self.mem = kw.pop('mem', 12)               # GB address-space limit
         self.nondet_static = kw.pop('nondet_static', False)
         self.expected = list(kw.pop('expected', []))   # obligations whose FAILURE is the documented behaviour (e.g. a documented throw): they MUST fail
+        self.dfcc = kw.pop('dfcc', True)            # contract jobs: False = check the same requires/ensures by a generated assume/call/assert harness (no --dfcc write-set instrumentation, no frame check) - for pointer-heavy code where --dfcc does not close
         self.optional = kw.pop('optional', False)   # an attempt: a timeout is reported as undecided in the evidence but does not fail the check
         if kw:
             raise TypeError('unknown job options %r' % kw)
@@ -83,6 +84,7 @@ class Plan:
         self.not_decided = []     # parts of the property not decided by this check
         self.meta = []            # M: induction principles stated, not machine-checked
         self.generated = {}       # filename -> text: files the plan generates into the build dir
+        self.workers = None       # cap on parallel jobs (memory-heavy properties)
 
     def unit(self, name, shim, **kw):
         u = Unit(self, name, shim, **kw)
